@@ -4,7 +4,7 @@
  * aliasing a where callers do that.  Obligations:
  *   - every VERIFY_CHECK reached in the real group code and in the real (non-multiplying) field wrappers, on every
  *     branch (infinity / doubling / equal-x / degenerate): i.e. the magnitude precondition of every field operation;
- *   - the precondition clauses of the magnitude contracts that replace fe_mul/fe_sqr/fe_inv*/fe_sqrt;
+ *   - the precondition clauses of the magnitude contracts that replace fe_mul, fe_sqr, fe_inv(_var), fe_sqrt;
  *   - the output satisfies ge_verify / gej_verify (restated below as sa_ge_okv / sa_gej_okv).
  * Group-law correctness of the results is NOT claimed (assumed residue). */
 #define C05_GROUP_CONTRACTS 1
@@ -35,17 +35,17 @@ void h_gej_double(void) {
     if (var && a.infinity) REACH("gej_double_var infinity");
 }
 void h_gej_add_var(void) {
-    INPUT(secp256k1_gej, a); INPUT(secp256k1_gej, b); INPUT(_Bool, alias); INPUT(_Bool, use_rzr);
+    INPUT(secp256k1_gej, a); INPUT(secp256k1_gej, c); INPUT(_Bool, alias); INPUT(_Bool, use_rzr);
     secp256k1_gej rr, *r = alias ? &a : &rr; secp256k1_fe rzr; int ainf, binf;
-    __CPROVER_assume(sa_gej_okv(&a) && sa_gej_okv(&b));
+    __CPROVER_assume(sa_gej_okv(&a) && sa_gej_okv(&c));
     __CPROVER_assume(!(use_rzr && a.infinity));   /* group.h: "a cannot be infinity in that case" */
-    ainf = a.infinity; binf = b.infinity;
-    secp256k1_gej_add_var(r, &a, &b, use_rzr ? &rzr : NULL);
+    ainf = a.infinity; binf = c.infinity;
+    secp256k1_gej_add_var(r, &a, &c, use_rzr ? &rzr : NULL);
     __CPROVER_assert(sa_gej_okv(r), "C05 gej_add_var: result satisfies gej_verify");
     if (use_rzr) __CPROVER_assert(sa_fe_okv(&rzr), "C05 gej_add_var: rzr is a valid field element");
     if (ainf) REACH("gej_add_var a infinity");
-    if (!ainf && binf) REACH("gej_add_var b infinity");
-    if (!ainf && !binf && r->infinity) REACH("gej_add_var result infinity (a = -b)");
+    if (!ainf && binf) REACH("gej_add_var c infinity");
+    if (!ainf && !binf && r->infinity) REACH("gej_add_var result infinity (a = -c)");
     if (!ainf && !binf && !r->infinity && use_rzr) REACH("gej_add_var generic or doubling with rzr");
 }
 void h_gej_add_ge_var(void) {
@@ -130,22 +130,22 @@ void h_ge_set_gej(void) {
     if (s.magnitude == 8 && zi.magnitude == 8) REACH("zinv/rescale maximal magnitude");
 }
 void h_ge_storage(void) {
-    INPUT(secp256k1_ge, a); INPUT(secp256k1_ge_storage, s); INPUT(secp256k1_ge_storage, s2); INPUT(int, flag);
+    INPUT(secp256k1_ge, b); INPUT(secp256k1_ge_storage, st); INPUT(secp256k1_ge_storage, st2); INPUT(int, flag);
     secp256k1_ge r; secp256k1_ge_storage t;
-    __CPROVER_assume(sa_ge_okv(&a) && !a.infinity);
-    secp256k1_ge_to_storage(&t, &a);
+    __CPROVER_assume(sa_ge_okv(&b) && !b.infinity);
+    secp256k1_ge_to_storage(&t, &b);
     __CPROVER_assert(stval(&t.x) < P_() && stval(&t.y) < P_(), "C05 ge_to_storage: stored coordinates are canonical");
-    __CPROVER_assert(sa_cong_p(stval(&t.x), fval(&a.x)) && sa_cong_p(stval(&t.y), fval(&a.y)), "C05 ge_to_storage: stored coordinates equal the point's coordinates mod p");
+    __CPROVER_assert(sa_cong_p(stval(&t.x), fval(&b.x)) && sa_cong_p(stval(&t.y), fval(&b.y)), "C05 ge_to_storage: stored coordinates equal the point's coordinates mod p");
     secp256k1_ge_from_storage(&r, &t);
-    __CPROVER_assert(sa_ge_okv(&r) && !r.infinity && fval(&r.x) == stval(&t.x) && fval(&r.y) == stval(&t.y), "C05 ge_from_storage(to_storage(a)): valid, same coordinates");
-    __CPROVER_assume(stval(&s.x) < P_() && stval(&s.y) < P_());   /* storage invariant */
-    secp256k1_ge_from_storage(&r, &s);
+    __CPROVER_assert(sa_ge_okv(&r) && !r.infinity && fval(&r.x) == stval(&t.x) && fval(&r.y) == stval(&t.y), "C05 ge_from_storage(to_storage(b)): valid, same coordinates");
+    __CPROVER_assume(stval(&st.x) < P_() && stval(&st.y) < P_());   /* storage invariant */
+    secp256k1_ge_from_storage(&r, &st);
     __CPROVER_assert(sa_ge_okv(&r) && !r.infinity, "C05 ge_from_storage: result satisfies ge_verify");
     __CPROVER_assume(flag == 0 || flag == 1);
-    t = s;
-    secp256k1_ge_storage_cmov(&t, &s2, flag);
-    __CPROVER_assert(stval(&t.x) == (flag ? stval(&s2.x) : stval(&s.x)) && stval(&t.y) == (flag ? stval(&s2.y) : stval(&s.y)), "C05 ge_storage_cmov: r = flag ? a : r");
-    if (a.x.magnitude == 4 && fval(&a.x) > (P_() << 2)) REACH("ge_to_storage unnormalised x");
+    t = st;
+    secp256k1_ge_storage_cmov(&t, &st2, flag);
+    __CPROVER_assert(stval(&t.x) == (flag ? stval(&st2.x) : stval(&st.x)) && stval(&t.y) == (flag ? stval(&st2.y) : stval(&st.y)), "C05 ge_storage_cmov: r = flag ? b : r");
+    if (b.x.magnitude == 4 && fval(&b.x) > (P_() << 2)) REACH("ge_to_storage unnormalised x");
     if (flag) REACH("ge_storage_cmov taken");
 }
 void h_ge_predicates(void) {
